@@ -297,6 +297,14 @@ theorem sem_ifAt_typed {T : Ty} {c x y : Term} (hc : Term.checkedGetType bd c = 
 
 end
 
+/-- what the `variable` rule asserts, `⊢ _VAR x`, is valid under every standard valuation -/
+theorem mkVAR_validIn (n : String) (T : Ty) (M : Model) : ValidIn StdBase M (Thm.mkVAR n T) := by
+  intro ρ hρ hC _
+  show sem M ρ [] [] (.comb (.const "_VAR" (Ty.fn T Ty.bool)) (.var n T)) = 1
+  rw [sem_comb_const, constVal_nonlogical M ρ _ _ (by decide) (by decide) (by decide), hC.var_ T,
+    Model.size_bool]
+  exact appCode_varCode _ _ (hρ 1 n T)
+
 /-! ### small evaluation facts -/
 
 theorem sem_app_svar (M : Model) (ρ : Valuation) (bd : List Ty) (env : List Nat) (n : String)
